@@ -128,10 +128,12 @@ CanTry == ~skip /\ call.active /\ call.stack # <<>> /\
 
 \* a resolved-entry notification: announced exactly for installed top-level
 \* entries, with a snapshot equal to the RIB right after the change (C16)
-RsnapDiff(expected, typ, ni, kind, R) ==
+RsnapDiff(expected, typ, ni, kind, key, R) ==
   IF expected
   THEN IF "rsnap" \notin DOMAIN Ev THEN {"rsnapMissing"}
        ELSE Flag(Ev.rsnap.typ # typ \/ Ev.rsnap.ni # ni \/ Ev.rsnap.kind # kind, "rsnapTag")
+            \* the announcement names the entry by the key under which it is installed (and appears in the snapshot)
+            \cup Flag("key" \in DOMAIN Ev.rsnap /\ Ev.rsnap.key # key, "rsnapKey")
             \cup Flag(LogRib(Ev.rsnap.snap) # R, "rsnapContent")
   ELSE Flag("rsnap" \in DOMAIN Ev, "rsnapUnexpected")
 
@@ -141,7 +143,7 @@ TTry ==
      THEN \E e \in call.stack[Len(call.stack)] :
             /\ e.id = Ev.id
             /\ Try(e)
-            /\ Report(RsnapDiff(Ev.out = "installed" /\ e.kind \in TopKinds, "Add", e.ni, e.kind, rib'))
+            /\ Report(RsnapDiff(Ev.out = "installed" /\ e.kind \in TopKinds, "Add", e.ni, e.kind, e.key, rib'))
             /\ skip' = FALSE
      ELSE /\ (IF skip THEN TRUE ELSE Report({"try"}))
           /\ skip' = TRUE /\ UNCHANGED vars
@@ -200,7 +202,7 @@ TDelete ==
           /\ Report((IF ~ok THEN {"deleteUnexpected"}
                      ELSE Flag(n.out.oks # Ev.oks \/ n.out.fails # Ev.fails, "delVerdict" \o tag)
                           \cup {x \o tag : x \in Diff(C, L)}
-                          \cup RsnapDiff(hadTop, "Delete", Ev.op.ni, Ev.op.kind, n.rib))
+                          \cup RsnapDiff(hadTop, "Delete", Ev.op.ni, Ev.op.kind, Ev.op.key, n.rib))
                     \cup RealProps(L, R2, pflush, fwd))
           /\ Adopt(L)
           /\ ref' = R2
